@@ -204,3 +204,11 @@ package layout
 //@   ensures conserved: parasum(res, len(res)) == linesum(lines, len(lines))
 //@   loop 0:
 //@     invariant parasum(paragraphs, len(paragraphs)) + linesum(currentLines, len(currentLines)) == linesum(lines, $i)
+
+// re-sorting lines for reading order only permutes them and recomputes spacing
+//@ func reorderLinesByY results (res)
+//@   property C09
+//@   flags nosafety
+//@   ensures conserved: linesum(res, len(res)) == linesum(lines, len(lines)) && len(res) == len(lines)
+//@   loop 0:
+//@     invariant len(result) == len(lines) && linesum(result, len(result)) == linesum(lines, len(lines))
